@@ -386,17 +386,22 @@ def _mutate_tpe(ev):
 C14 = dict(
     family="tpe", trace_module="Trace_Tpe.tla",
     models=[dict(name="mc_tpe", module="MC_Tpe.tla", cfg=dict(quick="MC_Tpe.cfg", thorough="MC_Tpe.cfg"),
-                 cases=_tpe_case, setup=_tpe_setup, limit=dict(quick=1200, thorough=None))],
-    nontrivial=lambda ev: ev.get("ev") == "Tpe",
+                 cases=_tpe_case, setup=_tpe_setup, limit=dict(quick=1200, thorough=None)),
+            dict(name="mc_query", module="MC_Query.tla", cfg=dict(quick="MC_Query.cfg", thorough="MC_Query.cfg"), family="query",
+                 cases=lambda world, c, i: dict(id=i, pols=c["pols"], base=c["base"]), setup=_tpe_setup,
+                 limit=dict(quick=1500, thorough=None))],
+    nontrivial=lambda ev: ev.get("ev") in ("Tpe", "Query"),
     key=lambda ev: [ev.get("pols"), ev.get("base"), ev.get("erase")],
     mutate=_mutate_tpe, chunk=150,
     rule="G: 178 strictly valid policy sets over schema Sc2 (guarded optional attributes, chains through entity references, tags, context, membership, "
          "arithmetic) x 4 base environments x every erasure of <=2 of {principal id, context, u1 attrs, u1 ancestors, u1 tags, u2 absent, doc attrs, u1 absent}; "
          "completions = every environment of the 3840-element parameter universe consistent with the partial input (TLC-enumerated). For each case: definite "
          "decision and true/false/error classes hold on every completion, every view's residual evaluates (in TLC) like its original on every completion, the "
-         "views (policies, policy_set, get_policy, residual_policies) present the same residuals, reauthorize == reference. quick samples 1200 of 26196 cases.",
-    assumptions=["permission queries (query_resource / query_principal / query_action) are not driven yet",
-                 "completions range over the model universe only (a subset of all consistent completions)"],
+         "views (policies, policy_set, get_policy, residual_policies) present the same residuals, reauthorize == reference. quick samples 1200 of 26196 cases. "
+         "Permission queries: 178 policy sets x 192 base environments; query_resource / query_principal must return exactly the candidates of the store the "
+         "reference authorizer allows; query_action (action and context open) must list every action allowed under some context, never label Deny, and label "
+         "Allow only when every context allows (quick samples 1500 of 34176).",
+    assumptions=[                 "completions range over the model universe only (a subset of all consistent completions)"],
 )
 FAMILIES["C14"] = C14
 
